@@ -461,7 +461,8 @@ func (l *StatefulLexer) getPattern(candidate compiledRule) (*regexp.Regexp, erro
 
 // BackrefRegex returns a compiled regular expression with backreferences replaced by groups.
 func BackrefRegex(backrefCache *sync.Map, input string, groups []string) (*regexp.Regexp, error) {
-	key := input + "\000" + strings.Join(groups, "\000")
+	// The key must determine the pattern and every group: quoting keeps the encoding injective.
+	key := fmt.Sprintf("%q%q", input, groups)
 	cached, ok := backrefCache.Load(key)
 	if ok {
 		return cached.(*regexp.Regexp), nil
